@@ -4,7 +4,9 @@ import (
 	"errors"
 	"fmt"
 	"io"
+	"os"
 	"strings"
+	"syscall"
 	"time"
 
 	simrt "verif/sim/simrt"
@@ -313,6 +315,45 @@ func (f *faults) hit(sites []int, bar, k int) (int, bool) {
 	return 0, false
 }
 
+// errOf is the error value of the plan's fault at one of the sites (the plan has one fault per site).
+func (f *faults) errOf(sites ...int) error {
+	for _, p := range f.plan {
+		for _, site := range sites {
+			if p.Site == site {
+				return FaultErr(p.Err)
+			}
+		}
+	}
+	return ErrInjected
+}
+
+// FaultErr maps Fault.Err to the error a failing call returns: the harness's own error, or one of
+// the values real outputs produce when their reader has gone away.
+func FaultErr(kind int) error {
+	switch kind {
+	case 1:
+		return io.ErrClosedPipe
+	case 2:
+		return os.ErrClosed
+	case 3:
+		return syscall.EPIPE
+	case 4:
+		return &os.PathError{Op: "write", Path: "/dev/stdout", Err: syscall.EPIPE}
+	case 5:
+		return io.EOF
+	case 6:
+		return errReset
+	case 7:
+		return io.ErrShortWrite
+	}
+	return ErrInjected
+}
+
+var errReset = errors.New("write tcp 10.0.0.1:22: connection reset by peer")
+
+// NFaultErrs is the number of error values FaultErr knows.
+const NFaultErrs = 8
+
 // ---------------------------------------------------------------------------
 // fillers and extenders
 
@@ -327,7 +368,7 @@ func (pf *probeFiller) Fill(w io.Writer, st decor.Statistics) error {
 	simrt.Log(simrt.Entry{Kind: EvFill, ID: pf.bar, A: int64(st.AvailableWidth)})
 	pf.calls++
 	if _, bad := pf.f.hit([]int{FaultFill}, pf.bar, pf.calls); bad {
-		return ErrInjected
+		return pf.f.errOf(FaultFill)
 	}
 	if pf.base == nil {
 		n := st.AvailableWidth
@@ -360,7 +401,7 @@ func (pe *probeExtender) Fill(w io.Writer, st decor.Statistics) error {
 	simrt.Log(simrt.Entry{Kind: EvExt, ID: pe.bar})
 	pe.calls++
 	if _, bad := pe.f.hit([]int{FaultExt}, pe.bar, pe.calls); bad {
-		return ErrInjected
+		return pe.f.errOf(FaultExt)
 	}
 	for j := 0; j < pe.rows; j++ {
 		if _, err := io.WriteString(w, ExtRow(pe.bar, j)+"\n"); err != nil {
@@ -397,7 +438,7 @@ func (r *recorder) Write(p []byte) (int, error) {
 			return n, nil
 		}
 		simrt.Log(simrt.Entry{Kind: EvWrite, A: int64(r.writes), B: 0, S: "error", V: cp})
-		return 0, ErrInjected
+		return 0, r.f.errOf(FaultOutWrite)
 	}
 	simrt.Log(simrt.Entry{Kind: EvWrite, A: int64(r.writes), B: int64(len(p)), V: cp})
 	return len(p), nil
